@@ -30,6 +30,25 @@ func vfSidePoint(side int, t float64) orb.Point {
 	return orb.Point{t, vfBox.Max[1]}
 }
 
+// perimeter parameter of vfSidePoint(side, t): counter-clockwise from the corner (0,0), in [0,16)
+func vfPerim(side int, t float64) float64 {
+	var s float64
+	switch side {
+	case 1:
+		s = 16 - t
+	case 2:
+		s = t
+	case 3:
+		s = 4 + t
+	default:
+		s = 12 - t
+	}
+	return vfIteF(s >= 16, s-16, s)
+}
+
+// counter-clockwise distance from a to b along the perimeter, in [0,16)
+func vfCycDist(a, b float64) float64 { return vfIteF(b >= a, b-a, b-a+16) }
+
 // ---- aroundBound: endpoints anywhere on enumerated sides (corners included), both windings ----
 
 func vfC16Around_N(tier int) int { return 4 * 4 * 2 }
@@ -57,6 +76,24 @@ func vfC16Around(c int) {
 		onB := vfOr(vfOr(p[0] == 0, p[0] == 4), vfOr(p[1] == 0, p[1] == 4))
 		special := vfAnd(vfOr(vfOr(p[0] == 0, p[0] == 2), p[0] == 4), vfOr(vfOr(p[1] == 0, p[1] == 2), p[1] == 4))
 		vfAssert("around-added-vertex-is-corner-or-midpoint", vfAnd(onB, special))
+	}
+	// every box corner strictly between l and f along the walk (l -> f in the requested direction)
+	// is among the added vertices: perimeter parameter in [0,16), counter-clockwise from (0,0)
+	sf, sl := vfPerim(s1, t1), vfPerim(s2, t2)
+	from, to := sl, sf
+	if o == orb.CW {
+		from, to = sf, sl // walking clockwise from l to f passes what a counter-clockwise walk from f to l passes
+	}
+	span := vfCycDist(from, to)
+	corners := []orb.Point{{0, 0}, {4, 0}, {4, 4}, {0, 4}}
+	for k, cpt := range corners {
+		d := vfCycDist(from, float64(4*k))
+		between := vfAnd(d > 0, d < span)
+		present := false
+		for i := 2; i < n-1; i++ {
+			present = vfOr(present, vfAnd(out[i][0] == cpt[0], out[i][1] == cpt[1]))
+		}
+		vfAssert("around-passes-every-corner-between", vfImplies(between, present))
 	}
 	// the wrap polygon (l -> around the box -> f) has the requested winding (or no area)
 	a := vfArea2(out[1:])
